@@ -1421,8 +1421,17 @@ pub mod crumbs {
         }
     }
 
+    /// glibc `struct sigaction` on x86-64 Linux
+    #[repr(C)]
+    struct SigAction {
+        handler: usize,
+        mask: [u64; 16],
+        flags: i32,
+        restorer: usize,
+    }
+    const SA_ONSTACK: i32 = 0x0800_0000;
     extern "C" {
-        fn signal(signum: i32, handler: usize) -> usize;
+        fn sigaction(signum: i32, act: *const SigAction, old: *mut SigAction) -> i32;
         fn write(fd: i32, buf: *const u8, count: usize) -> isize;
         fn _exit(status: i32) -> !;
     }
@@ -1516,8 +1525,11 @@ pub mod crumbs {
     /// install the crash handlers and start the hang watchdog
     pub fn install(hang_after_s: u64) {
         unsafe {
+            // SA_ONSTACK: a stack overflow in the code under test (SIGSEGV on the guard page) must be handled
+            // on the alternate signal stack that std gives every thread, or the handler itself would fault
             for sig in [6, 4, 7, 8, 11] {
-                signal(sig, on_signal as usize);
+                let act = SigAction { handler: on_signal as usize, mask: [0; 16], flags: SA_ONSTACK, restorer: 0 };
+                sigaction(sig, &act, core::ptr::null_mut());
             }
         }
         std::thread::spawn(move || {
